@@ -593,6 +593,6 @@ mod tests {
 
 // Verification harnesses (Kani); the sources live outside this repository.
 #[cfg(feature = "verif")]
-mod verif {
+pub(crate) mod verif {
     include!(concat!(env!("VHOST_VERIF_DIR"), "/harness/vu_mod.rs"));
 }
